@@ -1019,17 +1019,72 @@ class World:
         return self._record(op, "routed_token" if routed else "token",
                             {"issuer": iss, "state": st, "params": model, "tok": tok, "now": self.clock.now}, out, before)
 
-    def userinfo(self, iss, st, claims):
+    def userinfo(self, iss, st, claims, routed=False):
+        """get_user_info(st) on the client of iss - or (routed) rph.get_user_info(st): the client is found through
+        the state; the user-info endpoint of every client then answers with claims"""
         before = self.snapshot()
         c = self.clients[iss]
-        c.fake_op.script(iss + "/user", claims)
+        for i, cl in self.clients.items():
+            if routed or i == iss:
+                cl.fake_op.script(i + "/user", claims)
         try:
-            r = c.get_user_info(st)
+            r = self.rph.get_user_info(st) if routed else c.get_user_info(st)
             out = ("ok", self._canon(r.to_dict()))
         except Exception as e:      # noqa: BLE001
             out = ("err", exc_name(e))
-        op = "(OUserinfo %s %s %s)" % (coq_str(iss), coq_str(st), coq_dict(claims))
-        return self._record(op, "userinfo", {"issuer": iss, "state": st, "claims": claims}, out, before)
+        if routed:
+            op = "(ORoutedUserinfo %s %s)" % (coq_str(st), coq_dict(claims))
+        else:
+            op = "(OUserinfo %s %s %s)" % (coq_str(iss), coq_str(st), coq_dict(claims))
+        return self._record(op, "routed_userinfo" if routed else "userinfo",
+                            {"issuer": iss, "state": st, "claims": claims}, out, before)
+
+    def refresh(self, iss, st, params, tok=None, routed=False):
+        """refresh_access_token(st) on the client of iss - or (routed) rph.refresh_access_token(st) - when the
+        token endpoint answers 200 with params (+ the ID Token tok).  Model: ORefresh / ORoutedRefresh."""
+        before = self.snapshot()
+        real, model = self._deliver(params, tok)
+        for i, c in self.clients.items():
+            if routed or i == iss:
+                c.fake_op.script(i + "/token", real)
+        try:
+            if routed:
+                r = self.rph.refresh_access_token(st)
+            else:
+                r = self.clients[iss].refresh_access_token(st)
+            out = ("ok", self._canon(r.to_dict()))
+        except Exception as e:      # noqa: BLE001
+            out = ("err", exc_name(e))
+        if routed:
+            op = "(ORoutedRefresh %s %s %s)" % (coq_str(st), self.coq_response(model, tok), coq_z(self.clock.now))
+        else:
+            op = "(ORefresh %s %s %s %s)" % (coq_str(iss), coq_str(st), self.coq_response(model, tok), coq_z(self.clock.now))
+        return self._record(op, "routed_refresh" if routed else "refresh",
+                            {"issuer": iss, "state": st, "params": model, "tok": tok, "now": self.clock.now}, out, before)
+
+    def finalize(self, iss, params, token_body=None, token_tok=None, userinfo=None):
+        """the high-level pipeline: client.finalize(response) / rph.finalize(iss, response) = finalize_auth, then
+        get_tokens and get_user_info for the state of the authorization response, the token and user-info endpoints
+        answering with token_body (+ ID Token token_tok) and userinfo.  Not replayed by the model (the trace is
+        judged by the oracle only)."""
+        before = self.snapshot()
+        c = self.clients[iss]
+        c.fake_op.next.pop(iss + "/token", None)
+        c.fake_op.next.pop(iss + "/user", None)
+        model_body = None
+        if token_body is not None:
+            real, model_body = self._deliver(token_body, token_tok)
+            c.fake_op.script(iss + "/token", real)
+        if userinfo is not None:
+            c.fake_op.script(iss + "/user", userinfo)
+        try:
+            r = self.rph.finalize(iss, dict(params)) if self.rph is not None else c.finalize(dict(params))
+            out = ("ok", {k: self._canon(v.to_dict() if hasattr(v, "to_dict") else v) for k, v in r.items()
+                          if k in ("state", "error", "token", "issuer")})
+        except Exception as e:      # noqa: BLE001
+            out = ("err", exc_name(e))
+        return self._record(None, "finalize", {"issuer": iss, "params": dict(params), "token_body": model_body,
+                                               "tok": token_tok, "userinfo": userinfo, "now": self.clock.now}, out, before)
 
     # -- the case term
     def coq_trace(self):
@@ -1039,6 +1094,8 @@ class World:
         return "(%s, %s, %s)" % (cfgs, coq_hash_table(sorted(self.hashed)), steps)
 
     def modellable(self):
+        if any(op is None for op, _, _ in self.steps):        # an operation the model has no step for (finalize)
+            return False
         return all(self.modellable_out(o) and all(modellable(db) for _, db, _ in snap) for _, o, snap in self.steps)
 
 
@@ -1085,6 +1142,17 @@ def _post_setup(client, kw):
         if kw.get("sigalg") is not None:
             rr["id_token_signed_response_alg"] = kw["sigalg"]
         ctx.registration_response = rr
+
+
+def enable_token_endpoint_auth(world):
+    """what a configuration with `client_authn_methods: [client_secret_basic, client_secret_post]` sets up: the
+    refresh_token service of a StandAloneClient authenticates with the client's token_endpoint_auth_method
+    (client_secret_basic), which its own table (client_secret_post only) does not have"""
+    from idpyoidc.client.client_auth import client_auth_setup, method_to_item
+    for c in world.clients.values():
+        c.get_context().client_authn_methods = client_auth_setup(
+            method_to_item(["client_secret_basic", "client_secret_post"]))
+    return world
 
 
 def fresh_world(world):
